@@ -356,13 +356,13 @@ fn replay(path: &str) -> i32 {
 
 fn tier_runs(prop: &str, tier: &str) -> u64 {
     let q = match prop {
-        "C16" => 200_000,
-        "C15" => 60_000,
-        "C17" | "C10" | "C08" => 400_000,
-        _ => 600_000,
+        "C16" => 120_000,
+        "C15" => 30_000,
+        "C17" | "C10" | "C08" => 200_000,
+        _ => 300_000,
     };
     match tier {
-        "thorough" => q * 25,
+        "thorough" => q * 40,
         _ => q,
     }
 }
